@@ -438,6 +438,21 @@ def _():
     assert torch.equal(m(a), ya)
 
 
+@axiom('torch.unique: strictly increasing vector of exactly the occurring values; min/max of an empty tensor raise')
+def _():
+    x = rt(RNG.randint(0, 3), RNG.randint(0, 4), kind=RNG.choice(['int', 'real']))
+    u = torch.unique(x)
+    assert all(u[i] < u[i + 1] for i in range(len(u) - 1))
+    assert set(u.tolist()) == set(x.flatten().tolist())
+    if x.numel() == 0:
+        for f in (x.min, x.max):
+            try:
+                f()
+                raise AssertionError('min/max of an empty tensor returned')
+            except RuntimeError:
+                pass
+
+
 def run_axioms(n_rounds):
     bad = []
     for name, f in AXIOMS:
